@@ -123,3 +123,24 @@ Fixpoint dmismatches (i : Z) (cs : list dcase) : list (Z * Z) :=
   | c :: r => let d := check_dcase c in
               if d =? -1 then dmismatches (i + 1) r else (i, d) :: dmismatches (i + 1) r
   end.
+
+(* ---- listener cases (C20): the same differential case run with a listener set, plus the observed events ---- *)
+Record lcase := { l_case : dcase; l_mask : list bool; l_events : list (Z * Z * list Z) }.
+
+(* -1 agree; -3 out of fuel; i >= 0 first differing call; 2000 event stream; other codes as check_dcase *)
+Definition check_lcase (lc : lcase) : Z :=
+  let c := l_case lc in
+  let '(s, rs) := run_calls Spec (std_host (hres_of (d_hres c))) (fun fa => nth fa (l_mask lc) false) MAXDEPTH FUEL (d_store c) (d_calls c) in
+  if has_fuel_out rs then -3 else
+  let d := first_obs_diff 0 rs (d_obs c) in
+  if negb (d =? -1) then d else
+  if negb (lev_eqb (listener_events (s_log s)) (l_events lc)) then 2000 else
+  if negb (hlog_eqb (host_events (s_log s)) (d_hlog c)) then 1000 else
+  if negb (zlist_eqb (s_globals s) (d_globals c)) then 1001 else -1.
+
+Fixpoint lmismatches (i : Z) (cs : list lcase) : list (Z * Z) :=
+  match cs with
+  | [] => []
+  | c :: r => let d := check_lcase c in
+              if d =? -1 then lmismatches (i + 1) r else (i, d) :: lmismatches (i + 1) r
+  end.
